@@ -284,7 +284,8 @@ def gen_case(seed, tier='quick'):
              'evaluator_first': rng.random() < 0.12,
              'range_names': range_names,
              'names': ctx['names'],
-             'qualify': bool(two or rng.random() < 0.3),
+             'qualify': ('loose' if two and rng.random() < 0.3
+                         else bool(two or rng.random() < 0.3)),
              'fail_on': 1}
     ops = []
     e = addrs[entry]
@@ -334,6 +335,9 @@ def gen_case(seed, tier='quick'):
 
 def _ref(frm_sheet, to_addr, qualify, default='Sheet1'):
     sheet, a = to_addr.split('!')
+    if qualify == 'loose':
+        # sheet-relative single references on every sheet
+        return a if sheet == frm_sheet else to_addr
     if sheet == frm_sheet == default and not qualify:
         return a
     return to_addr
@@ -368,7 +372,8 @@ def render(world):
             elif k == 'name':
                 parts.append(t['name'])
             elif k == 'range':
-                rr = t['ref'] if (t['sheet'] == sheet == s0 and not q) \
+                rr = t['ref'] if (t['sheet'] == sheet == s0 and
+                                  (not q or q == 'loose')) \
                     else f"{t['sheet']}!{t['ref']}"
                 parts.append(f'SUM({rr})')
             elif k == 'ifk':
@@ -620,7 +625,9 @@ def _run_case(case):
                 bump('probe:decoy_model_first')
             except Exception:
                 pass
-        model = worlds.build_model(cells, names, default_sheet=s0)
+        loose = world.get('qualify') == 'loose'
+        model = worlds.build_model(cells, names, default_sheet=s0,
+                                   per_sheet=not loose)
         uf = UserFuncs(fail_on=world.get('fail_on'))
         if world.get('evaluator_first'):
             # the evaluator exists before the model gets its contents (the
@@ -689,7 +696,8 @@ def _run_case(case):
                     # measuring pass on a pristine copy (it has to satisfy
                     # the oracles too)
                     m2 = worlds.build_model(render(world), names,
-                                            default_sheet=s0)
+                                            default_sheet=s0,
+                                            per_sheet=not loose)
                     uf2 = UserFuncs(fail_on=world.get('fail_on'))
                     ev2 = Evaluator(m2, uf2.namespace())
                     st = Stepper(**bud)
